@@ -191,7 +191,13 @@ def finish(prop, tier, seed, W, procs, tmp, known, t0, nruns, budget):
       tail = ""
       try:
         with open(os.path.join(tmp, "w%d.err" % wi)) as f:
-          tail = f.read()[-3000:]
+          txt = f.read()
+        # the reason first (library warnings printed afterwards would push it
+        # out of a plain tail), then the tail
+        at = max(txt.rfind("Traceback (most recent call last)"),
+                 txt.rfind("Fatal Python error"), txt.rfind("Timeout ("))
+        tail = (txt[at:at + 2500] + "\n...\n" if at >= 0 else "") + \
+            txt[-800:]
       except OSError:
         pass
       herrs.append({"idx": -1, "harness_error":
